@@ -6,19 +6,25 @@ from BPTK_Py import Model, bptk
 from BPTK_Py.server import BptkServer
 import BPTK_Py.server.bptkServer as srvmod
 
-DESTROYED = []
+DESTROYED = []      # serial numbers of destroyed bptk objects (NOT id(): python reuses the id of a freed object)
+_SERIAL = [0]
+
+SM = ["sm"]          # name of the scenario manager the factory registers (a harness may switch it, e.g. to "2024")
+RUNSPEC = [1.0, 10.0, 1.0]
 
 def make_bptk():
-    m = Model(starttime=1.0, stoptime=10.0, dt=1.0, name="m")
+    m = Model(starttime=RUNSPEC[0], stoptime=RUNSPEC[1], dt=RUNSPEC[2], name="m")
     s = m.stock("s"); f = m.flow("f"); c = m.constant("c")
     s.initial_value = 0.0; c.equation = 1.0; f.equation = c; s.equation = f
     b = bptk()
     b.register_model(m)
-    b.register_scenario_manager({"sm": {"model": m}})
-    b.register_scenarios(scenario_manager="sm", scenarios={"base": {"constants": {"c": 1.0}}})
+    b.register_scenario_manager({SM[0]: {"model": m}})
+    b.register_scenarios(scenario_manager=SM[0], scenarios={"base": {"constants": {"c": 1.0}}})
     orig = b.destroy
+    _SERIAL[0] += 1
+    b._verif_serial = _SERIAL[0]
     def destroy(orig=orig, b=b):
-        DESTROYED.append(id(b)); return orig()
+        DESTROYED.append(b._verif_serial); return orig()
     b.destroy = destroy
     return b
 
@@ -46,7 +52,7 @@ def start(client, headers=None, timeout=None):
     return json.loads(r.data)["instance_uuid"]
 
 def begin(client, u, headers=None):
-    return client.post("/%s/begin-session" % u, json=BEGIN, headers=headers or {})
+    return client.post("/%s/begin-session" % u, json=dict(BEGIN, scenario_managers=[SM[0]]), headers=headers or {})
 
 def digest(app):
     """server-side state that a refused request must not change"""
@@ -54,7 +60,7 @@ def digest(app):
     for k, rec in app._instance_manager._instances.items():
         ss = rec["instance"].session_state
         d[k] = None if ss is None else (ss.get("step"), ss.get("lock"), len(ss.get("results_log", {}) or {}), repr(ss.get("settings_log"))[:200])
-    sc = app._bptk.get_scenario("sm", "base")
+    sc = app._bptk.get_scenario(SM[0], "base")
     return (d, dict(sc.constants), len(DESTROYED))
 
 import os, shutil, tempfile, copy
@@ -85,23 +91,36 @@ def step_req(client, u, kind):
         return client.post("/%s/run-step" % u, json={"settings": {}})
     if kind.startswith("multi"):
         # one request that advances two steps with the same settings object
-        return client.post("/%s/run-steps" % u, json={"numberSteps": 2, "settings": {"sm": {"base": {"constants": {"c": float(kind[5:])}}}}})
-    return client.post("/%s/run-step" % u, json={"settings": {"sm": {"base": {"constants": {"c": float(kind)}}}}})
+        return client.post("/%s/run-steps" % u, json={"numberSteps": 2, "settings": {SM[0]: {"base": {"constants": {"c": float(kind[5:])}}}}})
+    return client.post("/%s/run-step" % u, json={"settings": {SM[0]: {"base": {"constants": {"c": float(kind)}}}}})
 
 def snapshot(app, client, u):
     ss = app._instance_manager._instances[u]["instance"].session_state
+    keep_clock = ss.get("step")
     r1 = client.get("/%s/session-results" % u)
     r2 = client.get("/%s/flat-session-results" % u)
     keep = {k: ss[k] for k in ss if k != "lock"}
-    return norm(dict(state=keep, results=json.loads(r1.data), flat=json.loads(r2.data)))
+    def body(r):
+        try:
+            return json.loads(r.data) if r.status_code == 200 else {"HTTP status": r.status_code}
+        except ValueError:
+            return {"HTTP status": r.status_code, "body": "not JSON"}
+    return norm(dict(state=keep, results=body(r1), flat=body(r2)))
 
 def run_c19(case):
-    """case: dict(compress, kinds=[...per step...], mode='evict'|'server')"""
+    """case: dict(compress, kinds=[...per step...], mode='evict'|'server', manager='sm'|'2024', runspec=[start, stop, dt])"""
     d = tempfile.mkdtemp()
+    SM[0] = case.get("manager", "sm")
+    RUNSPEC[:] = case.get("runspec", [1.0, 10.0, 1.0])
     try:
         app = make_app(fake_clock=True, adapter=FileAdapter(case["compress"], d))
         client = app.test_client()
         u = start(client, timeout={"seconds": 100}); begin(client, u)
+        if case.get("resession"):
+            # an earlier session of the same instance that was saved at the same clock positions
+            for kind in case["resession"]:
+                step_req(client, u, kind)
+            client.post("/%s/begin-session" % u, json={"scenario_managers": [SM[0]], "scenarios": ["base"], "equations": ["s"]})
         for kind in case["kinds"]:
             r = step_req(client, u, kind)
             if r.status_code != 200:
@@ -139,9 +158,19 @@ def run_c20(case):
     d_ref = tempfile.mkdtemp()
     try:
         # uninterrupted reference
+        SM[0] = "sm"
+        RUNSPEC[:] = case.get("runspec", [1.0, 10.0, 1.0])
+        BEGIN2 = {"scenario_managers": ["sm"], "scenarios": ["base"], "equations": ["s"]}
+        def prehistory(cl, uu):
+            # an earlier session of the same instance with other equations, m steps long, saved at the same clock positions
+            if case.get("resession"):
+                for _ in range(int(case["resession"])):
+                    step_req(cl, uu, "1.0" if case["compress"] else "none")
+                cl.post("/%s/begin-session" % uu, json=BEGIN2)
         ref = make_app(fake_clock=True, adapter=FileAdapter(case["compress"], d_ref))
         rc = ref.test_client()
         ur = start(rc, timeout={"hours": 5}); begin(rc, ur)
+        prehistory(rc, ur)
         ref_out = []
         for kind in case["kinds"]:
             r = step_req(rc, ur, kind); ref_out.append((r.status_code, norm(json.loads(r.data))))
@@ -152,11 +181,7 @@ def run_c20(case):
         for _ in range(case.get("neighbours", 0)):
             o = start(c, timeout={"hours": 5}); begin(c, o); step_req(c, o, "none" if not case["compress"] else "1.0"); others.append(o)
         k = case["crash_at"]
-        if case.get("resession"):
-            # an earlier, longer session of the same instance (its state file is bigger than the next one)
-            for _ in range(6):
-                step_req(c, u, "1.0" if case["compress"] else "none")
-            c.post("/%s/end-session" % u); begin(c, u)
+        prehistory(c, u)
         for kind in case["kinds"][:k]:
             step_req(c, u, kind)
         del app, c                                      # the process is lost
@@ -192,7 +217,7 @@ def run_c20(case):
     finally:
         shutil.rmtree(d, ignore_errors=True); shutil.rmtree(d_ref, ignore_errors=True)
 
-case = {'compress': True, 'kinds': ['2.0', '2.0', '2.0', '2.0', '2.0'], 'crash_at': 0, 'torn': 0.9, 'neighbours': 0, 'resession': True}
+case = {'compress': False, 'kinds': ['2.0', '2.0', '2.0', '2.0', '2.0'], 'crash_at': 1, 'torn': None, 'neighbours': 0, 'resession': 1, 'runspec': [1.0, 1.06, 0.005]}
 bad = run_c20(case)
 print("case:", case)
 print("FAIL: " + bad if bad else "PASS")
